@@ -573,10 +573,32 @@ def kind_of(e, env):
             return args[0]
         if fn == 'len' and args == ['MAXSIZESTR']:
             return 'LEN-OF-MAX-SIZE'
+        mod_ = env.get('$mod')
+        if mod_ is not None and isinstance(e.func, ast.Name) and e.func.id in mod_.funcs and mod_.funcs[e.func.id].cls is None and env.get('$depth', 0) < 3:
+            # a module-level helper: its body is read with the same kinds (straight-line assignments, one return)
+            h_ = mod_.funcs[e.func.id].node
+            ps_ = [a_.arg for a_ in h_.args.args]
+            if len(ps_) == len(args) and not e.keywords:
+                env2 = {'$mod': mod_, '$depth': env.get('$depth', 0) + 1}
+                env2.update(zip(ps_, args))
+                for st_ in h_.body:
+                    if isinstance(st_, ast.Expr) and isinstance(st_.value, ast.Constant):
+                        continue
+                    if isinstance(st_, ast.Assign) and len(st_.targets) == 1 and isinstance(st_.targets[0], ast.Name):
+                        env2[st_.targets[0].id] = kind_of(st_.value, env2)
+                        continue
+                    if isinstance(st_, ast.Return) and st_.value is not None:
+                        return kind_of(st_.value, env2)
+                    return 'UNKNOWN'
     if isinstance(e, (ast.ListComp, ast.GeneratorExp, ast.SetComp)) and len(e.generators) == 1:
         g = e.generators[0]
         env2 = dict(env)
         return ('COLL', kind_of(e.elt, env2))
+    if isinstance(e, ast.Call) and isinstance(e.func, ast.Lambda) and len(e.func.args.args) == len(e.args) and not e.keywords:
+        # a function taken from a dispatch table and applied on the spot
+        env2 = dict(env)
+        env2.update({a_.arg: kind_of(x, env) for a_, x in zip(e.func.args.args, e.args)})
+        return kind_of(e.func.body, env2)
     return 'UNKNOWN'
 
 
@@ -625,15 +647,70 @@ def r4_size_column(rep, src):
             raise AnalysisError('%s._get_size_field_length not found' % cname)
         rep.saw_func(f)
         from .. import paths as P0
-        folder = P0.Folder(P0.module_consts(m, cname))
-        results = []
-        for p_ in P0.function_paths(f.node, folder):
-            if p_.outcome[0] != 'return' or p_.outcome[1] is None:
-                continue
-            cv = folder.value(p_.outcome[1])
-            k = ('CONST', cv[1]) if cv is not None and isinstance(cv[1], int) else kind_of(p_.outcome[1], {})
-            cond = ' and '.join(('' if pol else 'not ') + '(' + norm(t) + ')' for t, pol in p_.conds)
-            results.append((cond, k, p_, p_.conds))
+        from ..core import clone as _clone
+
+        def table_entry(base, key_node):
+            """value node of a class-level dispatch table `self.NAME` / `cls.NAME` / `Class.NAME` at a constant key (None: no such entry)"""
+            if not (isinstance(base, ast.Attribute) and isinstance(base.value, ast.Name) and base.value.id in ('self', 'cls', cname)):
+                return NotImplemented
+            node, _c = m.class_const_node(cname, base.attr) if hasattr(m, 'class_const_node') else (None, None)
+            if not isinstance(node, ast.Dict) or not isinstance(key_node, ast.Constant):
+                return NotImplemented
+            for k_, v_ in zip(node.keys, node.values):
+                if isinstance(k_, ast.Constant) and k_.value == key_node.value:
+                    return _clone(v_)
+            return None
+
+        class Spec(ast.NodeTransformer):
+            """the function specialised for one value of size_field_behavior; look-ups in class-level dispatch tables resolved"""
+            def __init__(self, md):
+                self.md = md
+
+            def visit_Attribute(self, n):
+                if self.md is not None and norm(n) == 'self.size_field_behavior' and isinstance(n.ctx, ast.Load):
+                    return ast.copy_location(ast.Constant(value=self.md), n)
+                return self.generic_visit(n)
+
+            def visit_Call(self, n):
+                n = self.generic_visit(n)
+                if isinstance(n.func, ast.Attribute) and n.func.attr == 'get' and 1 <= len(n.args) <= 2 and not n.keywords:
+                    r = table_entry(n.func.value, n.args[0])
+                    if r is not NotImplemented:
+                        return ast.copy_location(r if r is not None else (n.args[1] if len(n.args) == 2 else ast.Constant(value=None)), n)
+                return n
+
+            def visit_Subscript(self, n):
+                n = self.generic_visit(n)
+                if isinstance(n.ctx, ast.Load):
+                    r = table_entry(n.value, n.slice)
+                    if r is not NotImplemented and r is not None:
+                        return ast.copy_location(r, n)
+                return n
+
+        def fn_atom(e):
+            # a function object is not None and is true
+            if isinstance(e, ast.Compare) and len(e.ops) == 1 and isinstance(e.ops[0], (ast.Is, ast.IsNot)) and isinstance(e.left, ast.Lambda) \
+                    and isinstance(e.comparators[0], ast.Constant) and e.comparators[0].value is None:
+                return isinstance(e.ops[0], ast.IsNot)
+            if isinstance(e, ast.Lambda):
+                return True
+            return None
+        folder = P0.Folder(P0.module_consts(m, cname), fn_atom)
+
+        def results_for(md):
+            fn_ = Spec(md).visit(_clone(f.node))
+            ast.fix_missing_locations(fn_)
+            out_ = []
+            for p_ in P0.function_paths(fn_, folder):
+                if p_.outcome[0] != 'return' or p_.outcome[1] is None:
+                    out_.append(('raise', None, p_, p_.conds) if p_.outcome[0] == 'raise' else ('other', None, p_, p_.conds))
+                    continue
+                cv = folder.value(p_.outcome[1])
+                k = ('CONST', cv[1]) if cv is not None and isinstance(cv[1], int) else kind_of(p_.outcome[1], {'$mod': m})
+                cond = ' and '.join(('' if pol else 'not ') + '(' + norm(t) + ')' for t, pol in p_.conds)
+                out_.append((cond, k, p_, p_.conds))
+            return out_
+        results = [r_ for r_ in results_for(None) if r_[0] not in ('raise', 'other')]
         if modes is None:
             ks = [k for _, k, _, _c in results]
             if ks == ['MAXLEN']:
@@ -659,16 +736,20 @@ def r4_size_column(rep, src):
                                 return (md in cv_[1]) == isinstance(op, ast.In)
                 return None
             for md in modes:
+                rs_ = results_for(md)
                 ks_ = set()
-                for cond, k, st, conds in results:
-                    if all(lit_truth(t, md) in (None, pol) for t, pol in conds) and any(lit_truth(t, md) is not None for t, pol in conds):
+                raising = False
+                for cond, k, p_, conds in rs_:
+                    if not all(lit_truth(t, md) in (None, pol) for t, pol in conds):
+                        continue       # a literal on the (unspecialised) behaviour contradicts this mode
+                    if cond == 'raise':
+                        raising = True
+                    elif cond != 'other':
                         ks_.add(k if not isinstance(k, list) else tuple(k))
-                raising = [p_ for p_ in P0.function_paths(f.node, folder) if p_.outcome[0] == 'raise'
-                           and all(lit_truth(t, md) in (None, pol) for t, pol in p_.conds)]
-                if len(ks_) == 1 and not raising:
-                    got[md] = ks_.pop()
-                elif raising:
+                if raising:
                     got[md] = 'raises'
+                elif len(ks_) == 1:
+                    got[md] = ks_.pop()
                 elif ks_:
                     got[md] = sorted(map(repr, ks_))
             if got.get('apt-ftparchive') == ('CONST', 16):
